@@ -74,7 +74,12 @@ Request == /\ pc = "connected" /\ Len(sent) < NReq
            /\ sent' = Append(sent, adopted)
            /\ UNCHANGED <<pc, C, enforced, offered, reply, best, scan, adopted>>
 
-Next == Enforce \/ Offer \/ (\E r \in Replies \cup {NotSupported, OtherError} : Reply(r)) \/ Scan \/ Adopt \/ Request
+\* The connection is lost and the client dials again for its next request. Nothing of the negotiation is redone: the version adopted (or
+\* enforced) when the client was built stays the client's version, and no second offer is made. (A step that leaves every variable as it
+\* is, named because the implementation has code on it - and a recorded offer after it is not a behaviour of this specification.)
+Reconnect == /\ pc = "connected" /\ UNCHANGED vars
+
+Next == Reconnect \/ Enforce \/ Offer \/ (\E r \in Replies \cup {NotSupported, OtherError} : Reply(r)) \/ Scan \/ Adopt \/ Request
 Spec == Init /\ [][Next]_vars
 
 -----------------------------------------------------------------------------
